@@ -118,6 +118,15 @@ func kidsOf(t *otree, n *onode, prefix string) []oentry {
 	return out
 }
 
+// readKind is the kind of a failed read of node n: refusing a member larger
+// than its segment with ErrInvalid is the recorded finding, anything else is def.
+func readKind(t *otree, n *onode, err error, def string) string {
+	if err != nil && n != nil && t.oversized(n) && errors.Is(err, fs.ErrInvalid) {
+		return "oversize"
+	}
+	return def
+}
+
 func readAll(sys fs.FS, p string) ([]byte, error) {
 	f, err := sys.Open(p)
 	if err != nil {
@@ -186,7 +195,7 @@ func compareView(sys *tarfs.FS, t *otree, rnd func(int) int) []failure {
 			data, _ := t.content(w.node)
 			b, err := readAll(sys, w.path)
 			if err != nil {
-				add("read", "reading %q: %v", w.path, err)
+				add(readKind(t, w.node, err, "read"), "reading %q: %v", w.path, err)
 			} else if !bytes.Equal(b, data) {
 				add("read", "%q reads %d bytes (fnv %d), the last occurrence has %d bytes (fnv %d)", w.path, len(b), fnv(b), len(data), fnv(data))
 			}
@@ -238,7 +247,7 @@ func compareView(sys *tarfs.FS, t *otree, rnd func(int) int) []failure {
 					f.Close()
 				}
 			case err != nil:
-				add("follow", "Open(%q): %v, but the link resolves to %q", w.path, err, pathOf(tn))
+				add(readKind(t, tn, err, "follow"), "Open(%q): %v, but the link resolves to %q", w.path, err, pathOf(tn))
 			default:
 				fi, _ := f.Stat()
 				switch tn.kind {
@@ -299,7 +308,7 @@ func compareView(sys *tarfs.FS, t *otree, rnd func(int) int) []failure {
 			if data, ok := t.content(b.node); ok {
 				got, err := readAll(sys, b.path)
 				if err != nil || !bytes.Equal(got, data) {
-					add("alias", "%q reads %d bytes (err %v), want %d bytes", b.path, len(got), err, len(data))
+					add(readKind(t, b.node, err, "alias"), "%q reads %d bytes (err %v), want %d bytes", b.path, len(got), err, len(data))
 				}
 			}
 		}
@@ -463,6 +472,10 @@ func compareSub(sys *tarfs.FS, t *otree, dir oentry) []failure {
 			b, err := readAll(sub, w.path)
 			if err != nil || !bytes.Equal(b, data) {
 				kind := "sub"
+				if readKind(t, w.node, err, "") == "oversize" {
+					fails = append(fails, failure{"oversize", fmt.Sprintf("Sub(%q): reading %q: %v", dir.path, w.path, err)})
+					continue
+				}
 				if w.node.kind == 'h' && dir.path != "." {
 					if linkFail {
 						continue
@@ -479,7 +492,9 @@ func compareSub(sys *tarfs.FS, t *otree, dir oentry) []failure {
 			// A link whose target lies inside the subtree resolves in the sub view too.
 			tn, _ := t.resolve(lexClean(pathOf(w.node)), true)
 			if tn != nil && (tn.kind == 'f' || tn.kind == 'd') && (pathOf(tn) == pathOf(dir.node) || strings.HasPrefix(pathOf(tn), pathOf(dir.node)+"/")) {
-				if f, err := sub.Open(w.path); err != nil {
+				if f, err := sub.Open(w.path); err != nil && readKind(t, tn, err, "") == "oversize" {
+					fails = append(fails, failure{"oversize", fmt.Sprintf("Sub(%q): Open(%q): %v", dir.path, w.path, err)})
+				} else if err != nil {
 					fails = append(fails, failure{"sub-link", fmt.Sprintf("Sub(%q): Open(%q): %v, but the link resolves to %q inside the subtree", dir.path, w.path, err, pathOf(tn))})
 					linkFail = true
 				} else {
